@@ -17,8 +17,8 @@ type chain struct {
 	Q, P []uint64
 }
 
-func bi(x uint64) *big.Int   { return new(big.Int).SetUint64(x) }
-func bint(x int64) *big.Int  { return big.NewInt(x) }
+func bi(x uint64) *big.Int     { return new(big.Int).SetUint64(x) }
+func bint(x int64) *big.Int    { return big.NewInt(x) }
 func prod(m []uint64) *big.Int { return ref.Prod(m) }
 
 // nttPrimes: primes ≡ 1 mod 2N.
